@@ -304,6 +304,153 @@ proof fn lemma_sub_split<A>(s: Seq<A>, a: Seq<A>, b: Seq<A>, lo: int, hi: int)
     assert(s.subrange(lo, hi) =~= a.subrange(lo, a.len() as int) + b.subrange(0, hi - a.len()));
 }
 
+
+pub open spec fn apply_range<M, T: SegtreeItem<M>>(s: Seq<T::V>, a: int, b: int, p: T::P) -> Seq<T::V> {
+    Seq::new(s.len(), |k: int| if a <= k <= b { T::act(p, s[k]) } else { s[k] })
+}
+
+// node i recomputed from its (wf) children: val = op(children), pend = pid
+proof fn lemma_merge<M, T: SegtreeItem<M>>(d1: Seq<T>, d2: Seq<T>, i: int, vl: int, vr: int)
+    requires 0 <= i, vl < vr, d1.len() == d2.len(), 2 * i + 2 < d1.len(),
+        wf::<M, T>(d1, 2 * i + 1, vl, (vl + vr) / 2), wf::<M, T>(d1, 2 * i + 2, (vl + vr) / 2 + 1, vr),
+        forall|j: int| 0 <= j < d1.len() && j != i ==> d1[j] == d2[j],
+        d2[i].val() == T::op(d1[2 * i + 1].val(), d1[2 * i + 2].val()), d2[i].pend() == T::pid(),
+    ensures wf::<M, T>(d2, i, vl, vr),
+        repr::<M, T>(d2, i, vl, vr) == repr::<M, T>(d1, 2 * i + 1, vl, (vl + vr) / 2) + repr::<M, T>(d1, 2 * i + 2, (vl + vr) / 2 + 1, vr),
+{
+    let m = (vl + vr) / 2;
+    assert forall|j: int| 0 <= j < d1.len() && desc(2 * i + 1, j) implies d1[j] == d2[j] by { lemma_desc_ge(2 * i + 1, j); }
+    assert forall|j: int| 0 <= j < d1.len() && desc(2 * i + 2, j) implies d1[j] == d2[j] by { lemma_desc_ge(2 * i + 2, j); }
+    lemma_frame::<M, T>(d1, d2, 2 * i + 1, vl, m);
+    lemma_frame::<M, T>(d1, d2, 2 * i + 2, m + 1, vr);
+    let l = repr::<M, T>(d1, 2 * i + 1, vl, m);
+    let r = repr::<M, T>(d1, 2 * i + 2, m + 1, vr);
+    lemma_repr_len::<M, T>(d1, 2 * i + 1, vl, m);
+    lemma_repr_len::<M, T>(d1, 2 * i + 2, m + 1, vr);
+    lemma_map_id::<M, T>(l + r);
+    lemma_fold_concat::<M, T>(l, r);
+    lemma_wf_val::<M, T>(d1, 2 * i + 1, vl, m);
+    lemma_wf_val::<M, T>(d1, 2 * i + 2, m + 1, vr);
+}
+
+// for every wf node (leaf or inner) the stored value is the fold of what it represents
+proof fn lemma_wf_val<M, T: SegtreeItem<M>>(d: Seq<T>, i: int, vl: int, vr: int)
+    requires wf::<M, T>(d, i, vl, vr)
+    ensures d[i].val() == fold::<M, T>(repr::<M, T>(d, i, vl, vr))
+{
+}
+
+// after a recursive call that changed one child's subtree only: the other child keeps wf/repr
+proof fn lemma_child_changed<M, T: SegtreeItem<M>>(d1: Seq<T>, d2: Seq<T>, i: int, vl: int, vr: int, left: bool)
+    requires 0 <= i, vl < vr, d1.len() == d2.len(), 2 * i + 2 < d1.len(),
+        wf::<M, T>(d1, 2 * i + 1, vl, (vl + vr) / 2), wf::<M, T>(d1, 2 * i + 2, (vl + vr) / 2 + 1, vr),
+        outside_same(d1, d2, if left { 2 * i + 1 } else { 2 * i + 2 }),
+    ensures
+        d2[i] == d1[i],
+        left ==> wf::<M, T>(d2, 2 * i + 2, (vl + vr) / 2 + 1, vr) && repr::<M, T>(d2, 2 * i + 2, (vl + vr) / 2 + 1, vr) == repr::<M, T>(d1, 2 * i + 2, (vl + vr) / 2 + 1, vr),
+        !left ==> wf::<M, T>(d2, 2 * i + 1, vl, (vl + vr) / 2) && repr::<M, T>(d2, 2 * i + 1, vl, (vl + vr) / 2) == repr::<M, T>(d1, 2 * i + 1, vl, (vl + vr) / 2),
+{
+    let m = (vl + vr) / 2;
+    let c = if left { 2 * i + 1 } else { 2 * i + 2 };
+    let o = if left { 2 * i + 2 } else { 2 * i + 1 };
+    assert(!desc(c, i)) by { if desc(c, i) { lemma_desc_ge(c, i); } }
+    assert forall|j: int| 0 <= j < d1.len() && desc(o, j) implies d1[j] == d2[j] by {
+        if desc(c, j) { lemma_desc_disjoint(i, j); }
+    }
+    if left { lemma_frame::<M, T>(d1, d2, 2 * i + 2, m + 1, vr); } else { lemma_frame::<M, T>(d1, d2, 2 * i + 1, vl, m); }
+}
+
+// ---------------- C02: predicates ----------------
+pub open spec fn fdet<M, T: SegtreeItem<M>, F: Fn(&T) -> bool>(f: &F) -> bool {
+    &&& forall|t: &T| #[trigger] f.requires((t,))
+    &&& forall|t1: T, t2: T, b1: bool, b2: bool| t1.val() == t2.val() && #[trigger] f.ensures((&t1,), b1) && #[trigger] f.ensures((&t2,), b2) ==> b1 == b2
+}
+pub open spec fn psat<M, T: SegtreeItem<M>, F: Fn(&T) -> bool>(f: &F, v: T::V) -> bool {
+    exists|t: T| t.val() == v && #[trigger] f.ensures((&t,), true)
+}
+// value of  c (+) s[a] (+) ... (+) s[k]   (k == a-1 gives c)
+pub open spec fn acc<M, T: SegtreeItem<M>>(c: T::V, s: Seq<T::V>, a: int, k: int) -> T::V {
+    fold::<M, T>(seq![c] + s.subrange(a, k + 1))
+}
+pub open spec fn mono<M, T: SegtreeItem<M>, F: Fn(&T) -> bool>(f: &F, c: T::V, s: Seq<T::V>, a: int) -> bool {
+    forall|j1: int, j2: int| a <= j1 <= j2 < s.len() && psat::<M, T, F>(f, acc::<M, T>(c, s, a, j1)) ==> psat::<M, T, F>(f, acc::<M, T>(c, s, a, j2))
+}
+pub open spec fn lb_post<M, T: SegtreeItem<M>, F: Fn(&T) -> bool>(f: &F, c: T::V, s: Seq<T::V>, a: int, vl: int, out: (T, Option<usize>)) -> bool {
+    match out.1 {
+        Some(k) => {
+            &&& vl + a <= k < vl + s.len()
+            &&& psat::<M, T, F>(f, acc::<M, T>(c, s, a, k - vl))
+            &&& forall|j: int| a <= j < k - vl ==> !psat::<M, T, F>(f, acc::<M, T>(c, s, a, j))
+            &&& out.0.val() == acc::<M, T>(c, s, a, k - vl)
+        },
+        None => {
+            &&& forall|j: int| a <= j < s.len() ==> !psat::<M, T, F>(f, acc::<M, T>(c, s, a, j))
+            &&& out.0.val() == acc::<M, T>(c, s, a, s.len() - 1)
+        },
+    }
+}
+
+proof fn lemma_acc_left<M, T: SegtreeItem<M>>(c: T::V, l: Seq<T::V>, r: Seq<T::V>, a: int, j: int)
+    requires 0 <= a <= j + 1, j < l.len()
+    ensures acc::<M, T>(c, l + r, a, j) == acc::<M, T>(c, l, a, j)
+{
+    assert((l + r).subrange(a, j + 1) =~= l.subrange(a, j + 1));
+}
+proof fn lemma_acc_right<M, T: SegtreeItem<M>>(c: T::V, l: Seq<T::V>, r: Seq<T::V>, a: int, j: int)
+    requires 0 <= a <= l.len(), 0 <= j < r.len()
+    ensures acc::<M, T>(acc::<M, T>(c, l, a, l.len() - 1), r, 0, j) == acc::<M, T>(c, l + r, a, l.len() + j)
+{
+    let x = seq![c] + l.subrange(a, l.len() as int);
+    let y = r.subrange(0, j + 1);
+    assert(seq![c] + (l + r).subrange(a, l.len() + j + 1) =~= x + y);
+    lemma_fold_concat::<M, T>(x, y);
+    lemma_fold_concat::<M, T>(seq![fold::<M, T>(x)], y);
+    assert(fold::<M, T>(seq![fold::<M, T>(x)]) == fold::<M, T>(x));
+}
+
+proof fn lemma_lb_right<M, T: SegtreeItem<M>, F: Fn(&T) -> bool>(f: &F, c: T::V, s: Seq<T::V>, ls: Seq<T::V>, rs: Seq<T::V>, a: int,
+        c2: T::V, a2: int, vl: int, out: (T, Option<usize>), went_left: bool)
+    requires s == ls + rs, 0 <= a, 0 <= a2 < rs.len(), ls.len() >= 1, rs.len() >= 1, vl >= 0,
+        forall|j: int| a2 <= j < rs.len() ==> #[trigger] acc::<M, T>(c2, rs, a2, j) == acc::<M, T>(c, s, a, ls.len() + j),
+        went_left ==> a < ls.len() && a2 == 0 && forall|j: int| a <= j < ls.len() ==> !psat::<M, T, F>(f, #[trigger] acc::<M, T>(c, s, a, j)),
+        !went_left ==> a >= ls.len() && a2 == a - ls.len(),
+        lb_post::<M, T, F>(f, c2, rs, a2, vl + ls.len(), out),
+    ensures lb_post::<M, T, F>(f, c, s, a, vl, out)
+{
+    match out.1 {
+        Some(k) => {
+            let kk = k - (vl + ls.len());
+            assert(acc::<M, T>(c2, rs, a2, kk) == acc::<M, T>(c, s, a, ls.len() + kk));
+            assert forall|j: int| a <= j < k - vl implies !psat::<M, T, F>(f, acc::<M, T>(c, s, a, j)) by {
+                if j >= ls.len() {
+                    let jj = j - ls.len();
+                    assert(acc::<M, T>(c2, rs, a2, jj) == acc::<M, T>(c, s, a, ls.len() + jj));
+                }
+            }
+        },
+        None => {
+            assert(acc::<M, T>(c2, rs, a2, rs.len() - 1) == acc::<M, T>(c, s, a, ls.len() + (rs.len() - 1)));
+            assert forall|j: int| a <= j < s.len() implies !psat::<M, T, F>(f, acc::<M, T>(c, s, a, j)) by {
+                if j >= ls.len() {
+                    let jj = j - ls.len();
+                    assert(acc::<M, T>(c2, rs, a2, jj) == acc::<M, T>(c, s, a, ls.len() + jj));
+                }
+            }
+        },
+    }
+}
+
+proof fn lemma_mono_right<M, T: SegtreeItem<M>, F: Fn(&T) -> bool>(f: &F, c: T::V, s: Seq<T::V>, ls: Seq<T::V>, rs: Seq<T::V>, a: int, c2: T::V, a2: int)
+    requires s == ls + rs, 0 <= a, 0 <= a2, a <= ls.len() + a2,
+        forall|j: int| a2 <= j < rs.len() ==> #[trigger] acc::<M, T>(c2, rs, a2, j) == acc::<M, T>(c, s, a, ls.len() + j),
+        mono::<M, T, F>(f, c, s, a),
+    ensures mono::<M, T, F>(f, c2, rs, a2)
+{
+    assert forall|j1: int, j2: int| a2 <= j1 <= j2 < rs.len() && psat::<M, T, F>(f, acc::<M, T>(c2, rs, a2, j1)) implies psat::<M, T, F>(f, acc::<M, T>(c2, rs, a2, j2)) by {
+        assert(acc::<M, T>(c2, rs, a2, j1) == acc::<M, T>(c, s, a, ls.len() + j1));
+        assert(acc::<M, T>(c2, rs, a2, j2) == acc::<M, T>(c, s, a, ls.len() + j2));
+    }
+}
 impl<M, T: SegtreeItem<M> + Clone> Segtree<T, M> {
     fn push_at(&mut self, i: usize)
         requires i * 2 + 2 < old(self).data.len(),
@@ -404,6 +551,187 @@ impl<M, T: SegtreeItem<M> + Clone> Segtree<T, M> {
                 &b,
             )
         }
+    }
+
+    fn modify_internal(&mut self, l: usize, r: usize, md: &M, i: usize, vl: usize, vr: usize)
+        requires wf::<M, T>(old(self).data@, i as int, vl as int, vr as int), vl <= l <= r <= vr, vr < usize::MAX / 4,
+        ensures
+            wf::<M, T>(final(self).data@, i as int, vl as int, vr as int),
+            repr::<M, T>(final(self).data@, i as int, vl as int, vr as int)
+                == apply_range::<M, T>(repr::<M, T>(old(self).data@, i as int, vl as int, vr as int), l - vl, r - vl, T::mview(md)),
+            outside_same(old(self).data@, final(self).data@, i as int),
+            final(self).n == old(self).n,
+        decreases vr - vl
+    {
+        let ghost d0 = self.data@;
+        proof { lemma_repr_len::<M, T>(d0, i as int, vl as int, vr as int); }
+        if l == vl && r == vr {
+            self.data[i].modify(md);
+            proof {
+                assert(desc(i as int, i as int));
+                lemma_apply_node::<M, T>(d0, self.data@, i as int, vl as int, vr as int, T::mview(md));
+                assert(map_act::<M, T>(T::mview(md), repr::<M, T>(d0, i as int, vl as int, vr as int))
+                    =~= apply_range::<M, T>(repr::<M, T>(d0, i as int, vl as int, vr as int), l - vl, r - vl, T::mview(md)));
+            }
+            return;
+        }
+        proof { assert(wf::<M, T>(d0, 2 * i + 2, (vl + vr) / 2 + 1, vr as int)); }
+        self.push_at(i);
+        let ghost d1 = self.data@;
+        proof { lemma_push::<M, T>(d0, d1, i as int, vl as int, vr as int);
+            assert(desc(i as int, i as int)); assert(desc(i as int, 2 * i + 1)); assert(desc(i as int, 2 * i + 2));
+            assert(outside_same(d0, d1, i as int)); }
+
+        let m = (vl + vr) / 2;
+        let ghost lrep = repr::<M, T>(d1, 2 * i + 1, vl as int, m as int);
+        let ghost rrep = repr::<M, T>(d1, 2 * i + 2, m as int + 1, vr as int);
+        proof {
+            lemma_repr_len::<M, T>(d1, 2 * i + 1, vl as int, m as int);
+            lemma_repr_len::<M, T>(d1, 2 * i + 2, m as int + 1, vr as int);
+        }
+        if r <= m {
+            self.modify_internal(l, r, md, i * 2 + 1, vl, m);
+            proof {
+                lemma_child_changed::<M, T>(d1, self.data@, i as int, vl as int, vr as int, true);
+                lemma_outside_trans::<T>(d0, d1, self.data@, i as int, true);
+            }
+        } else if l > m {
+            self.modify_internal(l, r, md, i * 2 + 2, m + 1, vr);
+            proof {
+                lemma_child_changed::<M, T>(d1, self.data@, i as int, vl as int, vr as int, false);
+                lemma_outside_trans::<T>(d0, d1, self.data@, i as int, false);
+            }
+        } else {
+            self.modify_internal(l, m, md, i * 2 + 1, vl, m);
+            let ghost d2 = self.data@;
+            proof {
+                lemma_child_changed::<M, T>(d1, d2, i as int, vl as int, vr as int, true);
+                lemma_outside_trans::<T>(d0, d1, d2, i as int, true);
+            }
+            self.modify_internal(m + 1, r, md, i * 2 + 2, m + 1, vr);
+            proof {
+                lemma_child_changed::<M, T>(d2, self.data@, i as int, vl as int, vr as int, false);
+                lemma_outside_trans::<T>(d0, d2, self.data@, i as int, false);
+            }
+        }
+        let ghost d3 = self.data@;
+        self.merge_at(i);
+        proof {
+            lemma_merge::<M, T>(d3, self.data@, i as int, vl as int, vr as int);
+            assert(outside_same(d0, self.data@, i as int));
+            assert(repr::<M, T>(self.data@, i as int, vl as int, vr as int)
+                =~= apply_range::<M, T>(lrep + rrep, l - vl, r - vl, T::mview(md)));
+        }
+    }
+
+    fn lower_bound_internal<F>(
+        &mut self,
+        mut item: T,
+        f: &F,
+        l: usize,
+        r: usize,
+        i: usize,
+        vl: usize,
+        vr: usize,
+    ) -> (out: (T, Option<usize>))
+    where
+        F: Fn(&T) -> bool,
+        requires wf::<M, T>(old(self).data@, i as int, vl as int, vr as int), vl <= l <= r, r == vr, vr < usize::MAX / 4,
+            fdet::<M, T, F>(f),
+            mono::<M, T, F>(f, item.val(), repr::<M, T>(old(self).data@, i as int, vl as int, vr as int), l - vl),
+        ensures
+            wf::<M, T>(final(self).data@, i as int, vl as int, vr as int),
+            repr::<M, T>(final(self).data@, i as int, vl as int, vr as int) == repr::<M, T>(old(self).data@, i as int, vl as int, vr as int),
+            outside_same(old(self).data@, final(self).data@, i as int),
+            final(self).n == old(self).n,
+            lb_post::<M, T, F>(f, item.val(), repr::<M, T>(old(self).data@, i as int, vl as int, vr as int), l - vl, vl as int, out),
+        decreases vr - vl
+    {
+        let ghost d0 = self.data@;
+        let ghost s = repr::<M, T>(d0, i as int, vl as int, vr as int);
+        let ghost c = item.val();
+        let ghost a = l - vl;
+        proof { lemma_repr_len::<M, T>(d0, i as int, vl as int, vr as int); }
+        if l == vl && r == vr {
+            let next = T::merge(&item, &self.data[i]);
+            proof {
+                lemma_wf_val::<M, T>(d0, i as int, vl as int, vr as int);
+                assert(s.subrange(0, s.len() as int) =~= s);
+                lemma_fold_concat::<M, T>(seq![c], s);
+                assert(next.val() == acc::<M, T>(c, s, 0, s.len() - 1));
+            }
+            if !f(&next) {
+                proof {
+                    assert forall|j: int| a <= j < s.len() implies !psat::<M, T, F>(f, acc::<M, T>(c, s, a, j)) by {
+                        if psat::<M, T, F>(f, acc::<M, T>(c, s, a, j)) {
+                            assert(psat::<M, T, F>(f, acc::<M, T>(c, s, a, s.len() - 1)));
+                            let t = choose|t: T| t.val() == next.val() && f.ensures((&t,), true);
+                            assert(f.ensures((&next,), false));
+                        }
+                    }
+                }
+                return (next, None);
+            }
+            if vl == vr {
+                proof { assert(psat::<M, T, F>(f, next.val())); }
+                return (next, Some(vl));
+            }
+        }
+        proof { assert(wf::<M, T>(d0, 2 * i + 2, (vl + vr) / 2 + 1, vr as int)); }
+        self.push_at(i);
+        let ghost d1 = self.data@;
+        proof { lemma_push::<M, T>(d0, d1, i as int, vl as int, vr as int);
+            assert(desc(i as int, i as int)); assert(desc(i as int, 2 * i + 1)); assert(desc(i as int, 2 * i + 2));
+            assert(outside_same(d0, d1, i as int)); }
+
+        let m = (vl + vr) / 2;
+        let ghost ls = repr::<M, T>(d1, 2 * i + 1, vl as int, m as int);
+        let ghost rs = repr::<M, T>(d1, 2 * i + 2, m as int + 1, vr as int);
+        proof {
+            lemma_repr_len::<M, T>(d1, 2 * i + 1, vl as int, m as int);
+            lemma_repr_len::<M, T>(d1, 2 * i + 2, m as int + 1, vr as int);
+        }
+        let ghost mut dmid = d1;
+        if l <= m {
+            proof {
+                assert forall|j1: int, j2: int| a <= j1 <= j2 < ls.len() && psat::<M, T, F>(f, acc::<M, T>(c, ls, a, j1)) implies psat::<M, T, F>(f, acc::<M, T>(c, ls, a, j2)) by {
+                    lemma_acc_left::<M, T>(c, ls, rs, a, j1); lemma_acc_left::<M, T>(c, ls, rs, a, j2);
+                }
+            }
+            let (left_item, left_res) = self.lower_bound_internal(item, f, l, m, i * 2 + 1, vl, m);
+            proof {
+                lemma_after_child::<M, T>(d1, self.data@, i as int, vl as int, vr as int, true);
+                lemma_outside_trans::<T>(d0, d1, self.data@, i as int, true);
+                dmid = self.data@;
+                assert forall|j: int| a <= j < ls.len() implies acc::<M, T>(c, ls, a, j) == acc::<M, T>(c, s, a, j) by { lemma_acc_left::<M, T>(c, ls, rs, a, j); }
+            }
+            if left_res.is_some() {
+                return (left_item, left_res);
+            }
+            item = left_item;
+        }
+        let ghost c2 = item.val();
+        let ghost a2 = if l <= m { 0 } else { l - (m + 1) };
+        proof {
+            // relate accumulations in the right child to accumulations in this node
+            assert forall|j: int| a2 <= j < rs.len() implies acc::<M, T>(c2, rs, a2, j) == acc::<M, T>(c, s, a, ls.len() + j) by {
+                if l <= m {
+                    lemma_acc_right::<M, T>(c, ls, rs, a, j);
+                } else {
+                    assert((ls + rs).subrange(a, ls.len() + j + 1) =~= rs.subrange(a2, j + 1));
+                }
+            }
+            assert(wf::<M, T>(dmid, 2 * i + 2, m as int + 1, vr as int));
+            assert(s == ls + rs);
+            lemma_mono_right::<M, T, F>(f, c, s, ls, rs, a, c2, a2);
+        }
+        let out = self.lower_bound_internal(item, f, l.max(m + 1), r, i * 2 + 2, m + 1, vr);
+        proof {
+            lemma_after_child::<M, T>(dmid, self.data@, i as int, vl as int, vr as int, false);
+            lemma_outside_trans::<T>(d0, dmid, self.data@, i as int, false);
+            lemma_lb_right::<M, T, F>(f, c, s, ls, rs, a, c2, a2, vl as int, out, l <= m);
+        }
+        out
     }
 }
 
